@@ -107,7 +107,8 @@ CHECKS["C17"] = dict(
     note="Stubs: os/open/uuid of insights.client.utilities, _get_rhsm_identity; validated by running the same concrete cases on a "
          "real temporary directory. Outside: directories at marker paths, concurrent clients, identifier stability when the "
          "configuration directory does not exist (write_to_disk ignores missing directories by design), the client orchestration "
-         "above the helpers (client.py / connection.py / support.py: when the helpers are called, caches put in front of them).")
+         "above the helpers (connection.py / support.py: when the helpers are called, memos kept in the connection object); the plain accessor "
+         "client.get_machine_id() is included.")
 
 CHECKS["C16"] = dict(
     text="Bounded symbolic execution of the real InsightsConfig loading / implication / validation code: InsightsConfig(**kw) with "
